@@ -21,6 +21,10 @@ def run(ctx: Ctx) -> None:
     for k in range(ctx.pick(100, 1500)):
         scs.append(qf.gen_c10(rng, 'c13r-%d' % k, ctx.thorough))
     run_traces(ctx, OWN, scs)
+    # the lookup part of the property: QU-then-QM, omitted questions, known answers, 1 s spacing (Trace_Lookup.tla, C13_* clauses)
+    from props import c18, lookupfam as lf
+    lscs = [lf.gen_lookup(rng, 'c13l-%d' % k, ctx.thorough) for k in range(ctx.pick(300, 5000))]
+    c18.run_scenarios(ctx, OWN, lscs)
 
 
 def replay(ctx: Ctx, path: str) -> None:
